@@ -440,6 +440,21 @@ fn plain_history(hist: &[u64]) -> Result<(), Diverge> {
     let hs: Vec<Handle> = seeds().iter().take(4).map(|s| Handle::from_u32(*s)).collect();
     let mut t: HandleTable<u32> = HandleTable::with_capacity(4, SysAllocator).map_err(|e| dv("plain/with_capacity", format!("{e}")))?;
     let mut model: BTreeMap<u32, u32> = BTreeMap::new();
+    {
+        // the &str, &[u8] and u32 forms of Index / IndexMut name the same entries as the handles
+        // made from them
+        let mut probe: HandleTable<u32> = HandleTable::default();
+        let hs_: Handle = std::str::FromStr::from_str("name").unwrap();
+        let hu = Handle::from_u32(77);
+        probe.insert(hs_, 1).map_err(|e| dv("plain/insert-error", format!("{e}")))?;
+        probe.insert(hu, 2).map_err(|e| dv("plain/insert-error", format!("{e}")))?;
+        probe["name"] += 10;
+        probe[&b"name"[..]] += 100;
+        probe[77u32] += 1000;
+        if probe.get(hs_).copied() != Some(111) || probe["name"] != 111 || probe[&b"name"[..]] != 111 || probe.get(hu).copied() != Some(1002) || probe[77u32] != 1002 || probe.len() != 2 {
+            return Err(dv("plain/index-forms", format!("&str / &[u8] / u32 indexing: entries read {:?} / {:?}", probe.get(hs_), probe.get(hu))));
+        }
+    }
     for (step, op) in hist.iter().enumerate() {
         let h = hs[(*op % 4) as usize];
         let val = 10 + step as u32;
@@ -499,6 +514,19 @@ fn plain_history(hist: &[u64]) -> Result<(), Diverge> {
         }
         if t.len() != model.len() {
             return Err(dv("plain/len", format!("history {hist:?} step {step}: len() = {}, model {}", t.len(), model.len())));
+        }
+        // every indexing form agrees with get (Index panics for an absent handle: present ones only)
+        for h in hs.iter() {
+            if let Some(want) = model.get(&h.value()).copied() {
+                if t[*h] != want {
+                    return Err(dv("plain/index", format!("history {hist:?} step {step}: table[handle {}] = {}, model {want}", h.value(), t[*h])));
+                }
+                let mut c = t.clone();
+                c[*h] = want + 1;
+                if c.get(*h).copied() != Some(want + 1) || t.get(*h).copied() != Some(want) {
+                    return Err(dv("plain/index-mut", format!("history {hist:?} step {step}: assignment through IndexMut on a clone is not visible there / leaks into the original")));
+                }
+            }
         }
         for h in hs.iter() {
             if t.get(*h).copied() != model.get(&h.value()).copied() {
